@@ -250,6 +250,69 @@ def run(ctx):
                 % (bad[0].ast.lineno if bad else "?", "first character" if first_only else "remaining characters", cls_name),
                 detail={"exits": len(rets)})
 
+    # ---- R20.7: the replacement cache is a memo consulted one key at a time
+    r.rule("R20.7", "the replacement cache is a key-determined memo: read and written one key at a time, never used wholesale", floor=4)
+    parents = {}
+    n_uses = 0
+    for mn, mm in cls.methods.items():
+        for x in ast.walk(mm.node):
+            for c in ast.iter_child_nodes(x):
+                parents[id(c)] = x
+        for x in ast.walk(mm.node):
+            if not (isinstance(x, ast.Attribute) and x.attr == "replaceCache" and isinstance(x.value, ast.Name) and x.value.id == "self"):
+                continue
+            n_uses += 1
+            par = parents.get(id(x))
+            key = "cache-use::%s::%s" % (mn, norm(par)[:50] if par is not None else "?")
+            where = "%s:%d" % (REL, x.lineno)
+            if isinstance(x.ctx, ast.Store):
+                r.check("R20.7", mn == "__init__" and isinstance(par, ast.Assign) and norm(par.value) in ("{}", "dict()"), key, where,
+                        "%s rebinds self.replaceCache (%s)" % (mn, norm(par)[:60]))
+                continue
+            one_key = (isinstance(par, ast.Subscript) and par.value is x) or \
+                (isinstance(par, ast.Compare) and x in par.comparators and len(par.ops) == 1 and isinstance(par.ops[0], (ast.In, ast.NotIn))) or \
+                (isinstance(par, ast.Attribute) and par.attr in ("get", "setdefault") and isinstance(parents.get(id(par)), ast.Call))
+            wholesale = (isinstance(par, ast.Call) and x in par.args) or isinstance(par, (ast.For, ast.comprehension)) or \
+                (isinstance(par, ast.Attribute) and par.attr in ("items", "values", "keys", "update", "copy")) or isinstance(par, ast.keyword)
+            r.idiom("R20.7", one_key, key, where, "unrecognised use of the replacement cache in %s: %s" % (mn, norm(par)[:60] if par is not None else "?"),
+                    wrong=[(wholesale, "%s uses the whole replacement cache at once (`%s`): the cache holds every character any earlier call "
+                                       "had to escape -- characters illegal only in first position, or only in public identifiers -- so a "
+                                       "name that is already legal is changed depending on what was coerced before" % (mn, norm(par)[:70] if par is not None else "?"))],
+                    data={"method": mn})
+            if isinstance(par, ast.Subscript) and isinstance(par.ctx, ast.Store):
+                st = parents.get(id(par))
+                fn = mm
+                loc = {}
+                for a in walk_no_nested(fn.node):
+                    if isinstance(a, ast.Assign) and len(a.targets) == 1 and isinstance(a.targets[0], ast.Name):
+                        loc.setdefault(a.targets[0].id, []).append(a.value)
+                knames = {n_.id for n_ in ast.walk(par.slice) if isinstance(n_, ast.Name)}
+                val = st.value if isinstance(st, ast.Assign) else None
+                seen = set()
+                free = set()
+                stack = [val] if val is not None else []
+                while stack:
+                    e = stack.pop()
+                    for n_ in ast.walk(e):
+                        if isinstance(n_, ast.Name) and isinstance(n_.ctx, ast.Load) and n_.id not in seen:
+                            seen.add(n_.id)
+                            if n_.id in knames:
+                                continue
+                            if n_.id in loc and len(loc[n_.id]) == 1:
+                                stack.append(loc[n_.id][0])
+                            else:
+                                free.add(n_.id)
+                        elif isinstance(n_, ast.Attribute) and isinstance(n_.value, ast.Name) and n_.value.id == "self":
+                            free.add("self." + n_.attr)
+                import builtins
+                mod_names = set(mod.imports) | set(mod.functions) | set(mod.classes) | {
+                    t.id for a in mod.assign_nodes for t in getattr(a, "targets", []) if isinstance(t, ast.Name)}
+                free = {f_ for f_ in free if not hasattr(builtins, f_) and f_ not in mod_names}
+                r.check("R20.7", val is not None and not free, "cache-value-key-determined::%s" % mn, where,
+                        "the value stored in the replacement cache depends on more than its key (%s): what a character is replaced by "
+                        "depends on the call that first met it" % sorted(free), data={"method": mn})
+    r.idiom("R20.7", n_uses >= 4, "cache-uses-found", cls.where, "only %d uses of self.replaceCache were found" % n_uses)
+
     # ---- R20.5
     init = cls.methods["__init__"]
     flags = [a.arg for a in init.node.args.args[1:]]
@@ -319,6 +382,9 @@ def thorough(ctx):
 def mutants():
     from ..selftest import TextMutant as T
     return [
+        T("cache-as-translate-table", REL, "            nameRestOutput = nameRestOutput.replace(char, replacement)\n        return nameFirstOutput + nameRestOutput",
+          "            nameRestOutput = nameRestOutput.replace(char, replacement)\n        nameRestOutput = \"\".join(self.replaceCache.get(c, c) if c in self.replaceCache.keys() else c for c in nameRest)\n        return nameFirstOutput + nameRestOutput", "R20.7"),
+        T("cache-value-depends-on-size", REL, "        self.replaceCache[char] = replacement\n", "        self.replaceCache[char] = replacement if len(self.replaceCache) < 64 else char\n", "R20.7"),
         T("toxmlname-fastpath", REL, "    def toXmlName(self, name):\n        nameFirst = name[0]", "    def toXmlName(self, name):\n        if not nonXmlNameBMPRegexp.search(name):\n            return name\n        nameFirst = name[0]", "R20.4"),
         T("regex-range-edit", REL, "nonXmlNameBMPRegexp = re.compile('[\\x00-,/:-@", "nonXmlNameBMPRegexp = re.compile('[\\x00-,/;-@", "R20.1"),
         T("first-regex-edit", REL, "nonXmlNameFirstBMPRegexp = re.compile('[\\x00-@", "nonXmlNameFirstBMPRegexp = re.compile('[\\x00-?", "R20.1"),
